@@ -1377,6 +1377,15 @@ func c07History(r *vRand, cfg c07Cfg, cycles int) []c07Ev {
 		default:
 			sc = append(sc, c07Ev{kind: "close"})
 		}
+		if r.chance(35) {
+			// an enable (after a disable or on its own) restarts the idle hold timer with the
+			// PENDING idle hold time, e.g. the one the reset has just installed
+			sc = append(sc, tick(r.pick(1, 3)))
+			if r.chance(60) {
+				sc = append(sc, c07Ev{kind: "disable"}, tick(r.pick(1, 6, 31)))
+			}
+			sc = append(sc, c07Ev{kind: "enable"})
+		}
 		// silence: just short of / exactly / past the prescribed end, then surely past everything
 		sc = append(sc, tick(r.pick(want-1, want, want, 4, 5, 6, cfg.idleAfterReset-1, cfg.idleAfterReset)))
 		sc = append(sc, tick(cfg.idleAfterReset+6))
